@@ -318,7 +318,13 @@ def late_mutation_probe(R, pid, name, da, rng, nt, opname, case=None):
         R.violation(f"{pid}:lazy", f"{name} on a dask-backed cube raises {type(e).__name__}", dict(case or {}, op=name))
         return False
     for a in arrays:
-        a[...] = np.roll(a, 1) if a.ndim == 1 and not np.array_equal(a, np.roll(a, 1)) else 0  # not a relabelling of the same partition
+        if a.dtype.kind in "iu" and a.ndim == 1 and np.any(a != a[0]):
+            j = int(np.flatnonzero(a != a[0])[0])  # swap two different labels: reversing or rolling 0,1,2,0,1,2 would only
+            a[0], a[j] = a[j], a[0]                # relabel the same partition
+        elif a.dtype.kind == "f":
+            a[...] = a * 1.37 + 0.11
+        else:
+            a[...] = 0
     got = outcome(lambda _d: dask.compute(lazy)[0], da)
     R.count("present_late_mutation_probes")
     if not same(got, ref):
